@@ -2,8 +2,8 @@
 from lib.a_adaptive import AdaptiveAdapter, GridEmb
 from lib.runner import CheckContext
 
-VIEW = {"accepted", "bins", "freq", "err2", "missed", "total", "ret", "adaptive", "live", "dtype_consistent"}
-REQ = ["NewEmpty", "NewFilled", "Fill", "FillN"]
+VIEW = {"accepted", "refused", "bins", "freq", "err2", "missed", "total", "ret", "adaptive", "live", "dtype_consistent"}
+REQ = ["NewEmpty", "NewFilled", "Fill", "FillN", "FillRefused"]
 
 GRIDS_QUICK = [
     [GridEmb(1.0), GridEmb(0.5)],
@@ -48,3 +48,11 @@ def factories_part(ctx, tier):
     except Exception:
         return
     trace_c04.run_part(ctx, tier)
+
+
+def refusal_part(ctx, tier):
+    """C18: fills that must be refused (wrong number of coordinates, weights of the wrong length) interleaved with accepted
+    ones on adaptive histograms: an exception, and nothing - not even the bins - has changed."""
+    _res, g = ctx.model_check("MC_Adaptive_c04q", required_actions=REQ)
+    ad = AdaptiveAdapter(GRIDS_QUICK[1], spelling=1)
+    ctx.replay(g, ad, VIEW, label="adaptive-refusals:" + "/".join(x.name for x in GRIDS_QUICK[1]), edge_budget=30000 if tier == "quick" else 100000)
